@@ -57,6 +57,31 @@ CHECKS['C09'] = dict(
     note=TB + "per-backend semantics are C01/C02/C07; memmem agreement additionally rests on C03; vendor semantics of is_x86_feature_detected!.",
     design_ref='5/C09')
 
+CHECKS['C13'] = dict(
+    category='other',
+    technique='dominance + derived-from guard analysis on MIR (three necessary-condition rules); no step bound is claimed',
+    text="Step counts are a runtime quantity and no static bound on them is in reach, so this check decides only the three "
+         "guards whose removal makes the work super-linear: LIN-1 the memcmp-confirming vector searcher is built only "
+         "under needle.len() <= K for a constant K < 4096 that is the same in all configurations; LIN-2 every call of "
+         "the quadratic Rabin-Karp searcher from the memmem layer is dominated by a constant length bound (or by "
+         "haystack.len() < min_haystack_len()); LIN-3 the adaptive prefilter shut-off exists, its thresholds are "
+         "constants, and every prefilter call in Two-Way is dominated by is_effective(). It does NOT decide linearity "
+         "of Two-Way (period memory) or of preprocessing and gives no constant.",
+    note=TB + "these are necessary conditions only; the property's bound on executed steps itself is not decided (DESIGN section 7).",
+    design_ref='5/C13')
+CHECKS['C10'] = dict(
+    category='other',
+    technique='call-graph reachability, derived-from taint, dominance and read-before-reassign path queries on Two-Way MIR',
+    text="Decides confinement of the heuristics and the structure that makes them invisible: TAINT-R (ranker reachable "
+         "only from construction, rank values only feed comparisons), TAINT-P (PrefilterConfig only selects Two-Way "
+         "with/without prefilter), PRE-REGION (no match is reported from prefilter-controlled code; window bound "
+         "re-checked after a prefilter jump), SHIFT-PAIR (after any change of pos the Two-Way memory `shift` is "
+         "re-assigned before it is read; non-zero only after a period step), PRE-ADAPT (adaptive state consulted before "
+         "each prefilter call). Each is a necessary condition; the semantic core (correct prefilter + full "
+         "re-verification = same result) rests on C11 and on Two-Way's correctness, which is not decided.",
+    note=TB + "user variable names pos/shift are resolved through MIR debug info (fail closed if renamed).",
+    design_ref='5/C10')
+
 NOT_YET = "check not built yet (build in progress, see DESIGN.md section 8 build order)"
 NA = {}
 
